@@ -89,6 +89,32 @@ CLAIMED = {
         note="Trusted: TLC, TraitSet.tla (cross-checked per case against builtin set), item concretisation. Known "
              "finding F15 (symmetric difference with coerced items) is a named deviation action; F2 fixed in /repo.",
         design="4/C07"),
+    "C08": dict(
+        technique=TLA + "Observe.tla defines from scratch which observables an expression covers in a heap; TLC checks "
+                  "its structural laws on all bounded heaps (ObserveMC) and that the incremental hook maintenance "
+                  "(ObserveImpl) refines it - which is how known finding F8 (cycles) was found; recorded steps of real "
+                  "observe() histories and of every enumerated (container with duplicates, operation) case, each with "
+                  "the handler calls during the change and a reachability probe of every object afterwards, are judged "
+                  "by TLC against the declarative definition",
+        text="Model checking of the declarative semantics (43k heaps, locality/union/quiet-link laws) and of the "
+             "implementation-shaped maintenance model against it; conformance on a real pool of 4 interlinked objects "
+             "(Instance link with comparison mode none, List with duplicates, Dict with coercing keys, metadata-tagged "
+             "traits, lazily materialised containers) under 19 expressions: 20k enumerated single-operation cases + "
+             "seeded histories, every step judged by TLC.",
+        note="Trusted: TLC; expressions limited to the catalogue (bound to the parser: compile_str must project to "
+             "the catalogue paths); dispatch='same'; set items and add_trait not exercised. Known finding F8.",
+        design="4/C08"),
+    "C09": dict(
+        technique=TLA + "same specification and recorded histories as C08; registration steps (observe / unobserve, "
+                  "repeated, failing, without prior registration), notifier census, garbage collection of the whole pool "
+                  "and of bound-method handler owners are judged by TLC (Trace_Observe, C09 clauses)",
+        text="Every recorded observe/unobserve step is judged: failure iff Observe!Fails says the walk meets an object "
+             "lacking a required trait (then the notifier census is unchanged), NotifierNotFound iff the count is 0, "
+             "census back to the baseline whenever no registration is left, unregistered handlers never called, nothing "
+             "kept alive by registrations after the pool or a handler owner is dropped.",
+        note="Trusted: TLC; census = sizes of all trait / container / object notifier lists of the pool; failures "
+             "injected through one object of a class lacking the observed trait; gc.collect() forced explicitly.",
+        design="4/C09"),
     "C13": dict(
         technique=TLA + "Names.tla defines Governing (instance trait > class trait > longest wildcard > class default) "
                   "and the access policies; TLC checks the policy invariants on all histories to the bound; every history "
